@@ -451,3 +451,21 @@ __CPROVER_ensures(INV(self) && G_AVAIL(self) == OLD(G_AVAIL(self)) - n && self->
 ''', 'finish_read'),
 ]
 UNITS += QVIEW
+
+# ---------------------------------------------------------------------------------- constructor
+uq_ctor = dict(
+    name='UQ.ctor', primary='C02', props={'C02'}, kind='L',
+    desc='UnboundedSPSCQueue constructor: one buffer of the requested capacity, producer and consumer on it, the maximum capacity recorded',
+    structs=[BQ_STRUCT, NODE_STRUCT, UQ_STRUCT, RR_STRUCT], prelude=PRODUCER, enforce='UQ_ctor', replace=['Node_new'],
+    funcs=[dict(src=dict(header=H, cls='UnboundedSPSCQueue', name='UnboundedSPSCQueue', part='ctor'), struct='UQ',
+                src_params=['initial_bounded_queue_capacity', 'max_capacity', 'huge_pages_policy'], cfun='UQ_ctor',
+                sig='void UQ_ctor(UQ* self, size_t initial_bounded_queue_capacity, size_t max_capacity, HugePagesPolicy huge_pages_policy)', cls_c='UQ', siblings=[],
+                contract=r'''
+__CPROVER_requires(__CPROVER_is_fresh(self, sizeof(UQ)) && initial_bounded_queue_capacity <= (((size_t)1) << 61) && g_alloc_count == 0)
+__CPROVER_assigns(__CPROVER_object_whole(self), g_alloc_count, g_alloc_cap)
+__CPROVER_ensures(self->_max_capacity == max_capacity && self->_consumer == self->_producer && g_alloc_count == 1) /*@ C02 "a new queue has exactly one buffer, shared by producer and consumer, and remembers the configured maximum capacity" */
+__CPROVER_ensures(INV_P(self) && self->_producer->bounded_queue._capacity >= initial_bounded_queue_capacity && self->_producer->bounded_queue._writer_pos == 0 && self->_producer->bounded_queue._atomic_writer_pos == 0) /*@ C02 "the first buffer is empty, not smaller than the requested initial capacity, and satisfies the bounded-queue invariant" */
+''')],
+    harness='  UQ* u; size_t a, b; HugePagesPolicy h; UQ_ctor(u, a, b, h);',
+    dropped=DROPPED, trusted=['Node constructor = BoundedSPSCQueue constructor postcondition (unit BQ.ctor) with next == nullptr'], min_obligations=10)
+UNITS.append(uq_ctor)
